@@ -121,7 +121,7 @@ def workloads(rng, quick):
     W["h_str"] = [([], [strict_str(rng, 60) for _ in range(n * 2)])]
     # len() of a Map / Zip / Slice over a Filter is a ClassError (an error path): a Filter only at the top
     views = [v for v in (viewgen.top(rng, rng.choice([1, 2, 3])) for _ in range(70 * n)) if "F" not in v.split()[1:] or v.split()[0] == "F"]
-    W["h_view"] = [([], [["reset"] + ["view " + v for v in views[i:i + 60]] for i in range(0, len(views), 60)])]
+    W["h_view"] = [(["nofail"], [["reset"] + ["view " + v for v in views[i:i + 60]] for i in range(0, len(views), 60)])]
     progs = [p for p in (excgen.random_prog(rng) for _ in range(40 * n)) if p]
     W["h_exc"] = [([], [excgen.execution(p) for p in progs])]
     # formatting: no %p (addresses differ between builds by nature)
